@@ -1403,6 +1403,7 @@ void QXmppJingleIq::parseElementFromChild(const QDomElement &element)
         } else if (const auto isMute = elementTag == u"mute"; isMute || elementTag == u"unmute") {
             RtpSessionStateMuting muting;
             muting.isMute = isMute;
+            muting.creator = Initiator;
 
             if (const auto creator = childElement.attribute(u"creator"_s); creator == u"initiator") {
                 muting.creator = Initiator;
